@@ -98,6 +98,20 @@ func (e *Env) callValue(fr *Frame, fv Value, args []Value, rt types.Type, st *St
 		}
 		return res
 	}
+	if top != nil && top.Opts["callbacks"] == "setters" {
+		// option-style callbacks: may write through their pointer arguments (the pointees become
+		// arbitrary) and touch nothing else
+		e.trust("callbacks through function values may overwrite what their pointer arguments point to and are assumed to touch nothing else (opt callbacks setters)")
+		for _, a := range args {
+			if p, ok := a.(*Ptr); ok && p.Kind != "arr" {
+				e.store(st, p, e.freshValue(p.pointee(), "setter"))
+			}
+		}
+		if tup, ok := rt.(*types.Tuple); ok && tup.Len() == 0 {
+			return nil
+		}
+		return e.freshValue(rt, "cbres")
+	}
 	if top != nil && top.Opts["callbacks"] == "pure" {
 		e.trust("callbacks through function values are assumed not to touch modelled state (opt callbacks pure)")
 		if tup, ok := rt.(*types.Tuple); ok && tup.Len() == 0 {
@@ -615,6 +629,7 @@ func (e *Env) runDeferred(fr *Frame, d deferRec, st *State) {
 	c := d.call
 	if c.IsInvoke() {
 		recv := d.fnv
+		e.ghostAt(fr, "call", c.Method.Name(), append([]Value{recv}, d.args...), st)
 		e.invoke(fr, recv, c.Method, d.args, c.Signature().Results(), st)
 		return
 	}
@@ -625,6 +640,7 @@ func (e *Env) runDeferred(fr *Frame, d deferRec, st *State) {
 		}
 		unsupp("deferred builtin %s", f.Name())
 	case *ssa.Function:
+		e.ghostAt(fr, "call", f.Name(), d.args, st)
 		e.callStatic(fr, f, nil, d.args, c.Signature().Results(), st)
 		return
 	}
